@@ -21,7 +21,9 @@
         chain has headroom.  For the witness stream ([a_full]) the same for
         heterogeneous units (exhaustive assignment search).
     - [KProg]: allocate, then reclaim or preempt, on clusters of the
-      interchangeable class (identical nodes, 1-GPU single-pod jobs).
+      interchangeable class (identical nodes, 1-GPU single-pod jobs; preempt
+      clusters with one or several leaf queues holding pending jobs, the
+      pending jobs in the pop order of the real JobsOrderByQueues).
         [monitor_ok]: every pending job for which the hypotheses of
         C05_reclaim_progress / C05_preempt_progress hold by the numbers of the
         generated cluster got an Evict (with it as preemptor) and a
@@ -343,20 +345,27 @@ Definition reclaim_expected (k : pcase) (i : nat) (p : pjob) : bool :=
 
 (** the hypotheses of C05_preempt_progress by the numbers: saturated, enough
     strictly lower-priority preemptible pods of the same queue for this job and
-    the pending jobs popped before it, and the non-preemptible quota gate *)
+    the pending jobs of its queue popped before it, and the non-preemptible
+    quota gate *)
 Definition np_gate_by_numbers (k : pcase) (i : nat) (p : pjob) : bool :=
   match find_pq k (pj_queue p) with
   | Some q => pj_preempt p || (pq_np q + before_in_queue k (pj_queue p) i true + 1 <=? pq_deserved q)
   | None => false
   end.
-(** pending jobs popped before position [i] that can take a victim at all *)
-Definition takers_before (k : pcase) (i : nat) : Z :=
-  zcount (fun jp => np_gate_by_numbers k (fst jp) (snd jp)) (firstn i (indexed 0 (p_pending k))).
+(** pending jobs OF QUEUE [q] popped before position [i] that can take a victim at all.  The
+    victims of preempt are pods of the preemptor's own queue (buildFilterFuncForPreempt): pending
+    jobs of other queues neither take a victim of this queue nor - the cluster being saturated
+    and every commit nominating the preemptor onto the unit its victim releases - a free unit. *)
+Definition takers_before (k : pcase) (q : positive) (i : nat) : Z :=
+  zcount (fun jp => Pos.eqb (pj_queue (snd jp)) q && np_gate_by_numbers k (fst jp) (snd jp))
+         (firstn i (indexed 0 (p_pending k))).
+(** Several leaf queues may hold pending jobs (same pod shape, i.e. one scheduling signature for
+    the whole cluster): what happened to the pending jobs of another queue - in particular that
+    one of them failed and became that queue's representative - is no hypothesis here. *)
 Definition preempt_expected (k : pcase) (i : nat) (p : pjob) : bool :=
   saturated k
-  && (takers_before k i + 1 <=? zcount (fun v => Pos.eqb (rj_queue v) (pj_queue p) && rj_preempt v && (rj_prio v <? pj_prio p))
-                                       (p_running k))
-  && (zcount (fun q => negb (Pos.eqb (pj_queue q) (pj_queue p))) (p_pending k) =? 0)
+  && (takers_before k (pj_queue p) i + 1
+      <=? zcount (fun v => Pos.eqb (rj_queue v) (pj_queue p) && rj_preempt v && (rj_prio v <? pj_prio p)) (p_running k))
   && np_gate_by_numbers k i p.
 
 Definition served (k : pcase) (p : pjob) : bool :=
